@@ -260,6 +260,35 @@ def run_case(case):
         return res
     msg = IR_pb2.IR()
     msg.ParseFromString(data[8:])
+    if fault.get("clash") is not None:
+        # "each UUID denotes one object": node #j of the file is given node
+        # #i's UUID (whatever their kinds).  The loader may reject the file;
+        # an IR it returns must not hold two attached nodes with one UUID, and
+        # every reference to that UUID must be the node lookup finds
+        from checks import c17_loader
+        from vlib import coherence
+
+        f = c17_loader.uuid_fields(msg)
+        i, j = fault["clash"][0] % len(f), fault["clash"][1] % len(f)
+        if i == j:
+            res.tag("fault:not-applicable")
+            return res
+        setattr(f[j][0], f[j][1], getattr(f[i][0], f[i][1]))
+        res.tag("fault:uuid-clash", "clash:%s<-%s" % (f[j][2], f[i][2]))
+        res.nontrivial = True
+        try:
+            ir2 = g.IR.load_protobuf_file(io.BytesIO(header() + msg.SerializeToString()))
+        except pbt.CaseTimeout:
+            raise
+        except Exception:  # noqa
+            res.tag("clash:rejected")
+            return res
+        res.tag("clash:accepted")
+        for bucket, detail in coherence.check(g, ir2, reload=False):
+            if bucket in ("two-attached-nodes-share-a-uuid", "get_by_uuid-disagrees-with-tree", "node-in-two-places"):
+                res.fail("C09:uuid-does-not-denote-one-object:" + bucket, "%s#%d <- %s#%d: %s" % (f[j][2], j, f[i][2], i, detail))
+                return res
+        return res
     allslots = slots(msg)
     present = [k for k in FAULT_KINDS if any(s[0] == k for s in allslots)]
     if not present:
@@ -312,6 +341,7 @@ def strategy():
         st.fixed_dictionaries(
             {"kind": st.integers(0, len(FAULT_KINDS) - 1), "slot": st.integers(0, 50), "repl": st.integers(0, len(ALL_KINDS) + 3)}
         ),
+        st.fixed_dictionaries({"clash": st.tuples(st.integers(0, 60), st.integers(0, 60)).map(list)}),
     )
     return st.fixed_dictionaries({"spec": specmod.specs(rich_refs=True, max_aux_depth=2), "fault": fault})
 
